@@ -157,8 +157,17 @@ def gen_grid(rng, tier):
     adds = [[cell_point(rng, dims, ranges, c), ob] for c, ob in zip(chosen + extra, objs)]
     rng.shuffle(adds)
     opts = gen_common_opts(rng, objs, allow_transpose=(ndim == 2))
-    return {"kind": "grid", "arch": {"type": "grid", "dims": dims, "ranges": ranges, "dtype": rng.choice(["float64", "float64", "float32"])},
+    case = {"kind": "grid", "arch": {"type": "grid", "dims": dims, "ranges": ranges, "dtype": rng.choice(["float64", "float64", "float32"])},
             "adds": adds, "batch": rng.choice([1, 3, 1000]), "fill": fill, "opts": opts}
+    if adds and rng.random() < 0.3:
+        # CMA-MAE archive in which elites (the best one included) are later REPLACED BY WORSE solutions: the range of the stored
+        # objectives is then smaller than the running statistics (stats.obj_max) suggest
+        case["arch"]["cma"] = True
+        case["batch"] = 1
+        best = max(adds, key=lambda x: x[1])
+        for a in [best] + [rng.choice(adds) for _ in range(rng.randint(0, 2))]:
+            case["adds"].append([list(a[0]), a[1] - rng.choice([0.5, 1.0, 3.25])])
+    return case
 
 
 def gen_centroids(rng, n, ranges):
@@ -290,7 +299,8 @@ def build_archive(case):
     from ribs.archives import CVTArchive, GridArchive, ProximityArchive, SlidingBoundariesArchive
     a = case["arch"]
     if a["type"] == "grid":
-        arch = GridArchive(solution_dim=1, dims=a["dims"], ranges=[tuple(r) for r in a["ranges"]], dtype=np.dtype(a["dtype"]).type)
+        kw = {"learning_rate": 0.5, "threshold_min": -1.0e4} if a.get("cma") else {}
+        arch = GridArchive(solution_dim=1, dims=a["dims"], ranges=[tuple(r) for r in a["ranges"]], dtype=np.dtype(a["dtype"]).type, **kw)
     elif a["type"] == "cvt":
         arch = CVTArchive(solution_dim=1, cells=len(a["centroids"]), ranges=[tuple(r) for r in a["ranges"]],
                           custom_centroids=np.array(a["centroids"], dtype=np.float64), dtype=np.dtype(a["dtype"]).type)
